@@ -67,6 +67,7 @@ func checkC05(ctx *Ctx) *Result {
 		"R13.1":  "documented limits are the constants in use; the lexers' loops are bounded by them (a scheme, host or port of the documented maximal length is still accepted)",
 		"R13.4":  "every accepting path of ParsePattern has passed each documented guard (a defective pattern is a violation that must be reported)",
 		"R13.10": "every rejecting path of ParsePattern is decided by one of the documented defects",
+		"R13.3":  "every rejection of ParsePattern is an UnacceptableOriginPatternError naming the pattern as supplied, with the documented Reason of the defect that decided it",
 		"R13.7":  "the host lexer's steps are the documented grammar's (label bytes, separators, the IPv4 assumption, lengths): a host outside it is a violation that must be reported, one inside it is accepted",
 		"R13.8":  "the IDNA profile used for domain hosts is idna.New(BidiRule, ValidateLabels(true), StrictDomainName(true), VerifyDNSLength(true))",
 	}, nil)
@@ -553,6 +554,10 @@ func checkC15(ctx *Ctx) *Result {
 	}
 	reportMismatches(r, "R15.3", val, vf, func(m mismatch) bool { return true }, "per-element behaviour differs from the documented, order-free table")
 	sortedSetAdd(ctx, r, "R15.4")
+	// "letter case of header names is irrelevant" includes their validity: the
+	// token predicate accepts both cases of every letter (it is exactly tchar)
+	r.rule("R4.4", "name predicates: each IsValid is the RFC 9110 token production (httpguts.ValidHeaderFieldName or a byte table equal to tchar) and the deny tables are looked up in the case they are written in", 3)
+	denyTables(ctx, r, "R4.4")
 	// order independence of the origin list rests on the tree: only its
 	// structural necessary conditions are decided (pairing of parallel slices,
 	// encoding agreement, insertion and lookup shape)
